@@ -896,6 +896,8 @@ class Interp(object):
         raise Unsupported('subscript of %s' % ops.typename(v))
 
     def getslice(self, v, lo, hi, st):
+        if isinstance(v, SObj) and v.attrs.get('__sliceable__'):
+            return v
         if isinstance(v, (list, tuple, str)) and all(
                 x is None or isinstance(x, int) for x in (lo, hi, st)):
             return v[lo:hi:st]
